@@ -15,7 +15,7 @@ props = props or [pid]
 GO = "/root/go/pkg/mod/golang.org/toolchain@v0.0.1-go1.24.0.linux-amd64/bin/go"
 env = dict(os.environ, GOFLAGS="-mod=mod", GOPROXY="off", GOSUMDB="off", GOTOOLCHAIN="local", GO=GO)
 def sh(cmd, cwd, timeout=1200):
-    r = subprocess.run(cmd, shell=True, cwd=cwd, env=env, stdout=subprocess.PIPE, stderr=subprocess.STDOUT, text=True, timeout=timeout)
+    r = subprocess.run(cmd, shell=True, cwd=cwd, env=env, stdout=subprocess.PIPE, stderr=subprocess.STDOUT, text=True, errors='replace', timeout=timeout)
     return r.returncode, r.stdout
 tag = os.path.basename(d)
 mut = "/tmp/mutrun-%s-%d" % (tag, os.getpid())
